@@ -55,6 +55,25 @@ class History:
             if s < 3:
                 self.step(s)
 
+    def gap(self, spec):
+        """what happens between two user operations: n -> n fine slots; "Q" -> the engine runs until quiet;
+        ("Q", n) -> solver's choice between running until quiet and n fine slots"""
+        if isinstance(spec, int):
+            saved, self.mode = self.mode, None
+            try:
+                self.slots(spec)
+            finally:
+                self.mode = saved
+        elif spec == "Q":
+            self.hist.append("Q")
+            self.drain()
+        else:
+            if self.e.choose("gap", 2) == 0:
+                self.hist.append("Q")
+                self.drain()
+            else:
+                self.gap(spec[1])
+
     def drain(self, maxrounds=40):
         for i in range(maxrounds):
             for o in (0, 1, 2):
